@@ -223,6 +223,10 @@ def monitor(ops, outs, pid):
                 if pid == "C03" and e == "CONNECT" and not blocked:
                     if ctype == "c" and not (auth_seen and bind_or_resume) and not (flags & F_LEGACY_AUTH):
                         fails.append((i, "connected-before-auth-and-bind"))
+                    # … and the server must have answered: a bind result or <resumed/>
+                    elif ctype == "c" and not (flags & F_LEGACY_AUTH) and not (
+                            b"_xmpp_bind1" in rxbuf or b"<resumed" in rxbuf):
+                        fails.append((i, "connected-without-bind-result-or-resumed"))
                     if ctype == "k" and not handshake_seen:
                         fails.append((i, "connected-before-handshake"))
             if e.startswith("DISCONNECT"):
